@@ -1297,3 +1297,390 @@ func (p *Program) classifyMapIterHelper(site ssa.Instruction, id string) (notes 
 	}
 	return s.notes, s.probs
 }
+
+// ---------------------------------------------------------------------------------------------
+// Sort comparators
+//
+// sortComparatorModel reads the comparator handed to sort.Slice / sort.SliceStable (a "less" function
+// over two indexes into the sorted slice) or slices.SortFunc / slices.SortStableFunc (a three-way
+// function over two elements) as "orders the elements by key K": every return of the comparator is
+// judged against the relation between K(first) and K(second) that the guard facts of the return (and a
+// returned comparison / cmp.Compare / strings.Compare itself) establish. The model exists only when the
+// comparator is a strict order by one key: `less` is true exactly for K(a) < K(b); the three-way result
+// is negative exactly for K(a) < K(b), positive exactly for K(a) > K(b) — so distinct keys never
+// compare equal. Whether K is injective on the elements is a separate judgement (C13.R7).
+
+type sortCmpModel struct {
+	Fn       *ssa.Function
+	ThreeWay bool   // func(a, b T) int; otherwise a less function
+	Shape    string // the key as an expression of the element, written "$" (e.g. "$.Index")
+	Desc     bool   // descending by the key
+}
+
+const (
+	scLT = 1
+	scEQ = 2
+	scGT = 4
+)
+
+// sortComparatorFn: the function used as comparator: a closure, a literal that captures nothing
+// (go/ssa passes the function itself) or a named function.
+func sortComparatorFn(v ssa.Value) (*ssa.Function, *ssa.MakeClosure) {
+	switch x := stripConv(v).(type) {
+	case *ssa.MakeClosure:
+		f, _ := x.Fn.(*ssa.Function)
+		return f, x
+	case *ssa.Function:
+		return x, nil
+	}
+	return nil, nil
+}
+
+type cmpShaper struct {
+	fn      *ssa.Function
+	mc      *ssa.MakeClosure
+	sorted  ssa.Value // the slice handed to the sort call
+	byIndex bool      // parameters are indexes into the sorted slice, not elements
+}
+
+func (s *cmpShaper) paramIdx(v ssa.Value) int {
+	for i, q := range s.fn.Params {
+		if ssa.Value(q) == v {
+			return i
+		}
+	}
+	return -1
+}
+
+// isSorted: x (a value of the comparator) denotes the slice being sorted.
+func (s *cmpShaper) isSorted(x ssa.Value) bool {
+	x = stripConv(x)
+	sorted := stripConv(s.sorted)
+	binding := func(fv *ssa.FreeVar) ssa.Value {
+		if s.mc == nil {
+			return nil
+		}
+		for i, q := range s.fn.FreeVars {
+			if q == fv && i < len(s.mc.Bindings) {
+				return s.mc.Bindings[i]
+			}
+		}
+		return nil
+	}
+	switch y := x.(type) {
+	case *ssa.FreeVar:
+		b := binding(y)
+		return b != nil && b == sorted
+	case *ssa.UnOp:
+		if fv, ok := y.X.(*ssa.FreeVar); ok && y.Op == token.MUL {
+			b := binding(fv)
+			if b == nil {
+				return false
+			}
+			if l, isLoad := sorted.(*ssa.UnOp); isLoad && l.Op == token.MUL && l.X == b {
+				return true
+			}
+		}
+	}
+	return false
+}
+
+func mergeRoot(a, b int) (int, bool) {
+	switch {
+	case a == -1:
+		return b, true
+	case b == -1 || a == b:
+		return a, true
+	}
+	return 0, false
+}
+
+// shape renders v as an expression of one of the two compared elements ("$"); root tells which
+// (0 first, 1 second, -1 none: a constant).
+func (s *cmpShaper) shape(v ssa.Value, d int) (string, int, bool) {
+	if v == nil || d > 16 {
+		return "", 0, false
+	}
+	switch x := v.(type) {
+	case *ssa.Const:
+		if x.Value == nil {
+			return "nil", -1, true
+		}
+		return x.Value.ExactString(), -1, true
+	case *ssa.Parameter:
+		if i := s.paramIdx(x); i >= 0 && i < 2 && !s.byIndex {
+			return "$", i, true
+		}
+	case *ssa.Alloc:
+		// a parameter spilled because its fields are selected
+		var val ssa.Value
+		n := 0
+		for _, r := range referrersOf(x) {
+			if st, ok := r.(*ssa.Store); ok && st.Addr == ssa.Value(x) {
+				n++
+				val = st.Val
+			}
+		}
+		if n == 1 {
+			if _, isParam := val.(*ssa.Parameter); isParam {
+				return s.shape(val, d+1)
+			}
+		}
+	case *ssa.UnOp:
+		in, r, ok := s.shape(x.X, d+1)
+		if !ok {
+			return "", 0, false
+		}
+		if x.Op == token.MUL {
+			return in, r, true
+		}
+		return x.Op.String() + in, r, true
+	case *ssa.FieldAddr:
+		in, r, ok := s.shape(x.X, d+1)
+		return in + "." + fieldName(x.X.Type(), x.Field), r, ok
+	case *ssa.Field:
+		in, r, ok := s.shape(x.X, d+1)
+		return in + "." + fieldName(x.X.Type(), x.Field), r, ok
+	case *ssa.IndexAddr:
+		if s.byIndex {
+			if i := s.paramIdx(x.Index); i >= 0 && i < 2 && s.isSorted(x.X) {
+				return "$", i, true
+			}
+		}
+		if k, isC := constInt(x.Index); isC {
+			in, r, ok := s.shape(x.X, d+1)
+			return fmt.Sprintf("%s[%d]", in, k), r, ok
+		}
+	case *ssa.Index:
+		if k, isC := constInt(x.Index); isC {
+			in, r, ok := s.shape(x.X, d+1)
+			return fmt.Sprintf("%s[%d]", in, k), r, ok
+		}
+	case *ssa.Lookup:
+		in, r, ok := s.shape(x.X, d+1)
+		ix, r2, ok2 := s.shape(x.Index, d+1)
+		root, ok3 := mergeRoot(r, r2)
+		return in + "[" + ix + "]", root, ok && ok2 && ok3
+	case *ssa.Extract:
+		in, r, ok := s.shape(x.Tuple, d+1)
+		return fmt.Sprintf("%s#%d", in, x.Index), r, ok
+	case *ssa.Convert:
+		in, r, ok := s.shape(x.X, d+1)
+		return x.Type().String() + "(" + in + ")", r, ok
+	case *ssa.ChangeType:
+		return s.shape(x.X, d+1)
+	case *ssa.MakeInterface:
+		return s.shape(x.X, d+1)
+	case *ssa.ChangeInterface:
+		return s.shape(x.X, d+1)
+	case *ssa.BinOp:
+		a, r1, ok1 := s.shape(x.X, d+1)
+		b, r2, ok2 := s.shape(x.Y, d+1)
+		root, ok3 := mergeRoot(r1, r2)
+		return "(" + a + " " + x.Op.String() + " " + b + ")", root, ok1 && ok2 && ok3
+	case *ssa.Call:
+		cc := x.Common()
+		parts := []string{}
+		root := -1
+		if cc.IsInvoke() {
+			in, r, ok := s.shape(cc.Value, d+1)
+			if !ok {
+				return "", 0, false
+			}
+			parts = append(parts, in)
+			root = r
+		} else if staticCallee(cc) == nil {
+			if _, isB := cc.Value.(*ssa.Builtin); !isB {
+				return "", 0, false
+			}
+		}
+		for _, a := range cc.Args {
+			in, r, ok := s.shape(a, d+1)
+			if !ok {
+				return "", 0, false
+			}
+			var okm bool
+			if root, okm = mergeRoot(root, r); !okm {
+				return "", 0, false
+			}
+			parts = append(parts, in)
+		}
+		return calleeID(cc) + "(" + strings.Join(parts, ", ") + ")", root, true
+	}
+	return "", 0, false
+}
+
+// relOf: cond == pol restricts the relation between K(first) and K(second) to the returned set
+// (bits scLT|scEQ|scGT). ok is false when cond is not a comparison of the two keys.
+func (m *sortCmpModel) relOf(s *cmpShaper, cond ssa.Value, pol bool) (int, bool) {
+	bo, ok := cond.(*ssa.BinOp)
+	if !ok {
+		return 0, false
+	}
+	x, y := bo.X, bo.Y
+	// cmp.Compare(x, y) <op> 0
+	if k, isC := constInt(y); isC && k == 0 {
+		if call, _ := asCall(x); call != nil && isCallTo(call.Common(), "cmp.Compare", "strings.Compare") && len(call.Common().Args) == 2 {
+			x, y = call.Common().Args[0], call.Common().Args[1]
+		}
+	}
+	var mask int
+	switch bo.Op {
+	case token.LSS:
+		mask = scLT
+	case token.LEQ:
+		mask = scLT | scEQ
+	case token.GTR:
+		mask = scGT
+	case token.GEQ:
+		mask = scGT | scEQ
+	case token.EQL:
+		mask = scEQ
+	case token.NEQ:
+		mask = scLT | scGT
+	default:
+		return 0, false
+	}
+	swapped, ok := m.keys(s, x, y)
+	if !ok {
+		return 0, false
+	}
+	if swapped {
+		mask = (mask&scLT)<<2 | mask&scEQ | (mask&scGT)>>2
+	}
+	if !pol {
+		mask = 7 ^ mask
+	}
+	return mask, true
+}
+
+// keys: x and y are the same key expression, one of the first and one of the second element.
+func (m *sortCmpModel) keys(s *cmpShaper, x, y ssa.Value) (swapped bool, ok bool) {
+	sx, rx, ok1 := s.shape(x, 0)
+	sy, ry, ok2 := s.shape(y, 0)
+	if !ok1 || !ok2 || sx != sy || rx < 0 || ry < 0 || rx == ry {
+		return false, false
+	}
+	if m.Shape == "" {
+		m.Shape = sx
+	} else if m.Shape != sx {
+		return false, false
+	}
+	return rx == 1, true
+}
+
+func (p *Program) sortComparatorModel(call *ssa.CallCommon) (*sortCmpModel, string) {
+	byIndex := false
+	switch calleeID(call) {
+	case "sort.Slice", "sort.SliceStable":
+		byIndex = true
+	case "slices.SortFunc", "slices.SortStableFunc":
+	default:
+		return nil, "not a sort with a comparator"
+	}
+	if len(call.Args) != 2 {
+		return nil, "unexpected arguments"
+	}
+	fn, mc := sortComparatorFn(call.Args[1])
+	if fn == nil || fn.Blocks == nil || len(fn.Params) != 2 || fn.Signature.Results().Len() != 1 {
+		return nil, "comparator is not a function whose body is known"
+	}
+	m := &sortCmpModel{Fn: fn, ThreeWay: !byIndex}
+	s := &cmpShaper{fn: fn, mc: mc, sorted: call.Args[0], byIndex: byIndex}
+	asc, desc := true, true
+	cases := p.returnCases(fn)
+	if len(cases) == 0 {
+		return nil, "comparator does not return"
+	}
+	for _, rc := range cases {
+		allowed := scLT | scEQ | scGT
+		for _, f := range rc.Facts {
+			if mask, ok := m.relOf(s, f.Cond, f.Pol); ok {
+				allowed &= mask
+			}
+		}
+		if allowed == 0 {
+			continue // infeasible return
+		}
+		// the relations under which this return answers "first before second" (lt), "equal" (eq),
+		// "second before first" (gt)
+		var lt, eq, gt int
+		r := rc.Results[0]
+		if r == nil {
+			return nil, "a returned value could not be resolved"
+		}
+		r = stripConv(r)
+		if m.ThreeWay {
+			neg := false
+			if u, isU := r.(*ssa.UnOp); isU && u.Op == token.SUB {
+				neg = true
+				r = stripConv(u.X)
+			}
+			if k, isC := constInt(r); isC {
+				if neg {
+					k = -k
+				}
+				switch {
+				case k < 0:
+					lt = allowed
+				case k > 0:
+					gt = allowed
+				default:
+					eq = allowed
+				}
+			} else if cl, isCall := r.(*ssa.Call); isCall && isCallTo(cl.Common(), "cmp.Compare", "strings.Compare") && len(cl.Common().Args) == 2 {
+				swapped, ok := m.keys(s, cl.Common().Args[0], cl.Common().Args[1])
+				if !ok {
+					return nil, "the operands of " + calleeID(cl.Common()) + " at " + p.IPos(cl) + " are not the same key of the two elements"
+				}
+				lt, eq, gt = allowed&scLT, allowed&scEQ, allowed&scGT
+				if swapped != neg {
+					lt, gt = gt, lt
+				}
+			} else {
+				return nil, "returns a value that is neither a constant nor cmp.Compare/strings.Compare of the keys at " + p.IPos(rc.Ret)
+			}
+		} else {
+			if b, isC := constBool(r); isC {
+				if b {
+					lt = allowed
+				} else {
+					eq = allowed // "not less": equal or after
+				}
+			} else if mask, ok := m.relOf(s, r, true); ok {
+				lt = allowed & mask
+				eq = allowed &^ mask
+			} else {
+				return nil, "returns a value that is neither a constant nor a comparison of the keys at " + p.IPos(rc.Ret)
+			}
+		}
+		if m.ThreeWay {
+			// ascending: negative only for <, zero only for ==, positive only for >
+			if lt&^scLT != 0 || eq&^scEQ != 0 || gt&^scGT != 0 {
+				asc = false
+			}
+			if lt&^scGT != 0 || eq&^scEQ != 0 || gt&^scLT != 0 {
+				desc = false
+			}
+		} else {
+			// ascending: true only for <, false only for == or >
+			if lt&^scLT != 0 || eq&scLT != 0 {
+				asc = false
+			}
+			if lt&^scGT != 0 || eq&scGT != 0 {
+				desc = false
+			}
+		}
+	}
+	if m.Shape == "" {
+		return nil, "the comparator does not compare a key of the two elements"
+	}
+	switch {
+	case asc:
+	case desc:
+		m.Desc = true
+	default:
+		return nil, "the comparator is not a strict order by " + m.Shape + " (some return answers 'before' or 'equal' for keys that are not)"
+	}
+	return m, ""
+}
